@@ -177,7 +177,8 @@ M("c07-L2-afero-stat-before-lock", ["C07"], {"C07": ["L2"]}, "backend/s3afero/si
 	if os.IsNotExist(err) {""", expect="HeadObject")
 
 M("c07-L2-helper-called-unlocked", ["C07"], {"C07": ["L2"]}, "backend/s3afero/multi.go",
-  """func (db *MultiBucketBackend) DeleteObject(bucketName, objectName string) (result gofakes3.ObjectDeleteResult, rerr error) {
+  """	return result, gofakes3.BucketNotFound(bucketName)
+	}
 	db.lock.Lock()
 	defer db.lock.Unlock()
 
@@ -189,7 +190,8 @@ M("c07-L2-helper-called-unlocked", ["C07"], {"C07": ["L2"]}, "backend/s3afero/mu
 		return result, gofakes3.BucketNotFound(bucketName)
 	}
 
-	return result, db.deleteObjectLocked(bucketName, objectName)""", """func (db *MultiBucketBackend) DeleteObject(bucketName, objectName string) (result gofakes3.ObjectDeleteResult, rerr error) {
+	return result, db.deleteObjectLocked(bucketName, objectName)""", """	return result, gofakes3.BucketNotFound(bucketName)
+	}
 	db.lock.Lock()
 
 	// Another slighly racy check:
@@ -695,12 +697,42 @@ MUTANTS.append({"name": "f13-revert-key-containment", "props": ["C10"], "rules":
 REVERT("f16-revert-bolt-meta-bucket", ["C10"], {"C10": ["R10.2"]}, "0015-fix-the-bolt-bookkeeping-bucket-is-not-addressable-a.patch")
 
 M("c10-multi-head-skips-key-check", ["C10"], {"C10": ["R10.1"]}, "backend/s3afero/multi.go",
-  """func (db *MultiBucketBackend) HeadObject(bucketName, objectName string) (*gofakes3.Object, error) {
+  """		return nil, gofakes3.BucketNotFound(bucketName)
+	}
 	if err := checkObjectName(objectName); err != nil {
 		return nil, err
 	}
-""", """func (db *MultiBucketBackend) HeadObject(bucketName, objectName string) (*gofakes3.Object, error) {
-""")
+
+	db.lock.Lock()
+	defer db.lock.Unlock()
+
+	// Another slighly racy check:
+	exists, err := afero.Exists(db.bucketFs, bucketName)
+	if err != nil {
+		return nil, err
+	} else if !exists {
+		return nil, gofakes3.BucketNotFound(bucketName)
+	}
+
+	fullPath := path.Join(bucketName, objectName)
+
+	stat, err := db.bucketFs.Stat(filepath.FromSlash(fullPath))""", """		return nil, gofakes3.BucketNotFound(bucketName)
+	}
+
+	db.lock.Lock()
+	defer db.lock.Unlock()
+
+	// Another slighly racy check:
+	exists, err := afero.Exists(db.bucketFs, bucketName)
+	if err != nil {
+		return nil, err
+	} else if !exists {
+		return nil, gofakes3.BucketNotFound(bucketName)
+	}
+
+	fullPath := path.Join(bucketName, objectName)
+
+	stat, err := db.bucketFs.Stat(filepath.FromSlash(fullPath))""")
 
 M("c10-sanitiser-weakened-to-prefix-test", ["C10"], {"C10": ["R10.1"]}, "backend/s3afero/util.go",
   """	if objectName == "" || path.Clean("/"+objectName) != "/"+objectName {""",
